@@ -73,6 +73,7 @@ class CliCreate(Instance):
         self.required_witnesses = ("created", "extracted")
         self.n_concrete = 0
         self.native_timeout = 1200
+        self.max_wall = 7200
         self.bounds = {"inputs": f"{len(files)} FASTA file(s) {[f for f, _ in files]} with {[len(r) for _, r in files]} records (concrete), k={k}, segment size 4, {threads} worker thread(s)",
                        "schedules": f"every interleaving within preemption bound {preempt}"}
 
@@ -250,8 +251,9 @@ class CliAnyText(Instance):
 PAN = [(b"pan.fa", [(b"s1#0#chr1", C1), (b"s1#0#chr2", [3, 3, 2, 0]), (b"s2#0#chr1", C2), (b"s2#0#chr2", C1[:9] + [7] + C1[10:])])]
 _reg(CliCreate("create_pan_t1", PAN, threads=1))
 _reg(CliCreate("create_pan_t2", PAN, threads=2))
-_reg(CliCreate("T_create_two_t2_p1", FILES2[:2], threads=2, preempt=1))
-_reg(CliCreate("T_create_two_t3", FILES2, threads=3, preempt=0))
+SMALL2 = [(b"ref.fa", [(b"chr1", C1)]), (b"smp.fa", [(b"chr1", C2), (b"short", [2, 1])])]
+_reg(CliCreate("T_create_two_t2_p1", SMALL2, threads=2, preempt=1))
+_reg(CliCreate("T_create_two_t3", FILES2[:2], threads=3, preempt=0))
 _reg(CliPresentations("present_arc", FILES2))
 _reg(CliAnyText("anytext3", 3))
 _reg(CliAnyText("T_anytext4", 4))
